@@ -32,15 +32,15 @@ def hStep : Handler := fun op j =>
       let vars ← match j.getObjVal? "vars" with
         | .ok .null => pure []
         | _ => getVars j "vars"
-      let keys ← getStrList j "keys"
+      let keys? ← getOptKeys j "keys"      -- null = default substance_keys = self.keys()
       match j.getObjVal? "ratex_value" with
       | .ok .null | .error _ =>
         match ← resolveRxn vars (← field j "rxn") with
         | none => pure "KeyError"
-        | some r => pure (showRates (rateDict vars r keys))
+        | some r => pure (showRates (rateDict vars r (keysFor keys? r)))
       | .ok v => do
         let r ← asRxn (← field j "rxn")
-        pure (showDict (rxnRateOf (← asRat v) r keys))
+        pure (showDict (rxnRateOf (← asRat v) r (keysFor keys? r)))
   | "rxn_keys" => do
       let r ← asRxn (← field j "rxn")
       pure (showStrList (rxnKeys r))
